@@ -525,6 +525,9 @@ class CallMixin:
                 else len(fr.locals['@yields'])
             t = self.truth(self.call_spec(ys, ns, fr))
             self.oblige('yield/%s@%d' % (fr.qualname, node.lineno), 'site', t, 'yield')
+        if 'yields' in self.ghost:
+            # summary ghost: number of elements yielded so far (survives loop cuts through invariants)
+            self.ghost['yields'] = SInt(smt.Add(self.term_of(self.ghost['yields']), smt.IntC(1)))
         if in_loop:
             if ys is None:
                 raise Unsupported('yield inside a symbolic loop of %s without an element contract' % fr.qualname)
@@ -565,12 +568,17 @@ class CallMixin:
         """Call a spec function with parameters taken by name from ns."""
         node = function_node(fn)
         names = [a.arg for a in node.args.args]
+        defaults = list(fn.__defaults__ or ())
+        first_default = len(names) - len(defaults)
         args = []
-        for n in names:
+        for k, n in enumerate(names):
             if n == 'G':
                 args.append(self.ghost_ns())
             elif n in ns:
                 args.append(ns[n])
+            elif k >= first_default:
+                # a spec may name a local of the code that a later version of the code no longer has
+                args.append(defaults[k - first_default])
             else:
                 raise Unsupported('spec %s wants %r which is not bound here' % (fn.__name__, n))
         return self.interpret_function(fn, args, {})
